@@ -43,6 +43,15 @@ def _cfg(tier):
 
 @st.composite
 def _with_prelude(draw, tier):
+    if chance(draw, 1, 16):
+        # the domain of a variable is ONE object, not a collection (let(T, domain=obj) / T(From(obj))); the object is an
+        # instance of a container-like class whose __len__ is 0 (falsy), its twin an ordinary (truthy) instance with the
+        # same fields.  n instances of the class exist, the variable ranges over the given one only.
+        vals = [draw(st.sampled_from([0, 1, 2, "", "x", None])) for _ in range(draw(st.integers(1, 4)))]
+        return {"family": "single_object_domain", "vals": vals, "pick": draw(st.integers(0, len(vals) - 1)),
+                "decl": draw(st.sampled_from(["let", "from"])),
+                "cond": draw(st.sampled_from([None, None, ["==", draw(st.sampled_from(vals))], ["!=", draw(st.sampled_from(vals))]])),
+                "selects": draw(st.sampled_from(["var", "val"]))}
     if chance(draw, 1, 8):
         # the flatten family (generator, builder and UNNEST reference of C16) over inner values that include falsy
         # scalars and falsy elements: a flattened element is a value like any other
@@ -187,9 +196,49 @@ def _check_flatten(case) -> Outcome:
                 features=classes)
 
 
+def _check_single_object_domain(case) -> Outcome:
+    import operator
+    from entity_query_language import an, entity, let, symbolic_mode, From
+    from entity_query_language.symbolic import Variable
+    from ..world import Made, MadeEmpty
+    classes = ["family_single_object_domain", "declared_by_" + case["decl"]]
+    feats = ["single_object_domain"]
+    c = case.get("cond")
+    results = {}
+    for label, cls in (("falsy", MadeEmpty), ("truthy_twin", Made)):
+        for c_ in list(Variable._cache_.values()):
+            c_.clear()
+        Variable._cache_.clear()
+        objs = [cls(src=i, val=v) for i, v in enumerate(case["vals"])]
+        mine = objs[case["pick"]]
+        holds = c is None or {"==": operator.eq, "!=": operator.ne}[c[0]](mine.val, c[1])
+        expected = [(mine.src, mine.val)] if holds else []
+        try:
+            with symbolic_mode():
+                v = let(cls, domain=mine) if case["decl"] == "let" else cls(From(mine))
+                conds = [] if c is None else [(v.val == c[1]) if c[0] == "==" else (v.val != c[1])]
+                q = an(entity(v if case["selects"] == "var" else v.val, *conds))
+            got = list(q.evaluate())
+        except Exception as e:
+            return fail("exception", f"{label}: {type(e).__name__}: {e}", nontrivial=True, classes=classes, features=feats)
+        if case["selects"] == "var":
+            got_rows = [(o.src, o.val) for o in got]
+        else:
+            got_rows = [(mine.src, g) for g in got]
+        results[label] = got_rows
+        if sorted(map(repr, got_rows)) != sorted(map(repr, expected)):
+            return fail("extra_rows" if len(got_rows) > len(expected) else "missing_rows",
+                        f"{label}: {cls.__name__} instances with val {case['vals']}, variable over the single object #{case['pick']} "
+                        f"({case['decl']}), condition {c}: expected {expected} got {got_rows}", nontrivial=True,
+                        classes=classes, features=feats + [label])
+    return Outcome(True, nontrivial=len(case["vals"]) >= 2, classes=classes, features=feats)
+
+
 def check(case) -> Outcome:
     if case.get("family") == "flatten":
         return _check_flatten(case)
+    if case.get("family") == "single_object_domain":
+        return _check_single_object_domain(case)
     objs = build_entities(case["ents"])
     feats = case_features(case)
     expected, n_sat, n_all = reference_rows(case, objs)
@@ -234,6 +283,8 @@ def check(case) -> Outcome:
 
 
 def render(case):
+    if case.get("family") == "single_object_domain":
+        return dict(case)
     if case.get("family") == "flatten":
         from . import c16
         return {"family": "flatten", **c16.render(case["flat"])}
